@@ -298,7 +298,7 @@ func init() {
 				if len(lits) < 1 {
 					r.Bad(qk, "queue entry literal", fmt.Sprintf("expected a Redelegation value built from the parameters, found %d", len(lits)), nil, e.Pos(qf.Pos()))
 				}
-				for i, a := range lits {
+				for i, a := range LiteralAllocs(qa, qf, "types.Redelegation") {
 					f := complitFields(qa, a)
 					ok := f["DelegatorAddress"] != nil && f["DelegatorAddress"].String() == "sdk.AccAddress.String($delAddr)" &&
 						f["SrcValidatorAddress"] != nil && f["SrcValidatorAddress"].String() == "sdk.ValAddress.String($srcVal)" &&
